@@ -6,7 +6,7 @@ Part 2 (Model/Blueprint.lean): block stacking, link resolution, placement.
 Theorem-backed: cell-map injectivity (no two text cells of a map name the same grid index, for every
 map size), the closed forms `line = i + 2j (+ const)`, the reader of every class keeps every token at its computed index
 (`read_keeps_every_token`), the Cartesian reader exactly (`cart_read_exact`), the
-Cartesian writer's soundness on non-negative indices (`cart_write_read_id_partial`: whatever it draws reads back
+Cartesian writer's soundness (`cart_write_read_id`, full strength: whatever it draws reads back
 to the contents; `cart_read_write_read_id`: read, written, read again gives the same contents; `cart_read_write_id`: re-drawing what was read reproduces the
 text up to the trimming of trailing placeholders), for EVERY class the completeness theorem
 `write_read_complete_partial` (a drawing reads back with every label at its own index unless the outline inferred from
@@ -295,6 +295,31 @@ private theorem maxD_ge (d : Int) (l : List Int) (x : Int) (h : x ∈ l) : x ≤
     · exact h1
     · exact h2 x h
 
+private theorem foldl_min_le : ∀ (xs : List Int) (a : Int),
+    xs.foldl min a ≤ a ∧ ∀ y ∈ xs, xs.foldl min a ≤ y := by
+  intro xs
+  induction xs with
+  | nil => intro a; simp
+  | cons x xs ih =>
+    intro a
+    simp only [List.foldl_cons]
+    obtain ⟨h1, h2⟩ := ih (min a x)
+    refine ⟨by omega, ?_⟩
+    intro y hy
+    rcases List.mem_cons.mp hy with rfl | hy
+    · omega
+    · exact h2 y hy
+
+private theorem minD_le (d : Int) (l : List Int) (x : Int) (h : x ∈ l) : minD d l ≤ x := by
+  cases l with
+  | nil => cases h
+  | cons a as =>
+    simp only [minD]
+    obtain ⟨h1, h2⟩ := foldl_min_le as a
+    rcases List.mem_cons.mp h with rfl | h
+    · exact h1
+    · exact h2 x h
+
 private theorem get?_some_mem (L : Labels) (cell : Cell) (v : String) (h : get? L cell = some v) :
     (cell, v) ∈ L := by
   unfold get? at h
@@ -406,12 +431,11 @@ private theorem suffix_mem {α} (pre suf : List α) (i : Nat) (t : α) (hi : pre
   rw [List.getElem?_append_right hi] at h
   exact List.mem_of_getElem? h
 
-/-- **Cartesian maps: what the writer draws reads back to the contents** (`write_sound` for Cartesian
-maps, `_partial`: non-negative indices — for negative indices the statement is false in the code, see
-findings.d/C18.txt). If `gridContentsToAscii` does not refuse, reading the drawn lines again gives, at every
-grid index, exactly the label the contents hold there (a placeholder or nothing where they hold none). -/
-theorem cart_write_read_id_partial (L : Labels) (m : AMap)
-    (hpos : ∀ p ∈ L, 0 ≤ p.1.1 ∧ 0 ≤ p.1.2)
+/-- **Cartesian maps: what the writer draws reads back to the contents** (`write_sound` for Cartesian maps, full
+strength since the writer refuses every index set that does not start at (0, 0)). If `gridContentsToAscii` does
+not refuse, reading the drawn lines again gives, at every grid index, exactly the label the contents hold there
+(a placeholder or nothing where they hold none): drawn completely or refused. -/
+theorem cart_write_read_id (L : Labels) (m : AMap)
     (hdata : ∀ p ∈ L, IsData p.2)
     (hw : gridContentsToAscii .cart L = some m) :
     ∃ m', readAscii .cart m.lines = some m' ∧
@@ -432,8 +456,19 @@ theorem cart_write_read_id_partial (L : Labels) (m : AMap)
     simp only [hLe, Bool.false_eq_true, ↓reduceIte] at hdim
     split at hdim
     · cases hdim
+    rename_i hmin
     simp only [Option.some.injEq, Prod.mk.injEq] at hdim
     obtain ⟨_, ho, hW, hH⟩ := hdim
+    -- not refused: the indices start at (0, 0), so none is negative
+    have hpos : ∀ p ∈ L, 0 ≤ p.1.1 ∧ 0 ≤ p.1.2 := by
+      intro p hp
+      have h1 := minD_le 0 ((L.map (·.1)).map (·.1)) p.1.1 (List.mem_map.mpr ⟨p.1, List.mem_map.mpr ⟨p, hp, rfl⟩, rfl⟩)
+      have h2 := minD_le 0 ((L.map (·.1)).map (·.2)) p.1.2 (List.mem_map.mpr ⟨p.1, List.mem_map.mpr ⟨p, hp, rfl⟩, rfl⟩)
+      have h3 : minD 0 ((L.map (·.1)).map (·.1)) = 0 ∧ minD 0 ((L.map (·.1)).map (·.2)) = 0 := by
+        constructor
+        · exact Decidable.byContradiction (fun h => hmin (Or.inl h))
+        · exact Decidable.byContradiction (fun h => hmin (Or.inr h))
+      omega
     have hbW : ∀ p ∈ L, p.1.1 < W := by
       intro p hp
       have := maxD_ge 0 ((L.map (·.1)).map (·.1)) p.1.1 (List.mem_map.mpr ⟨p.1, List.mem_map.mpr ⟨p, hp, rfl⟩, rfl⟩)
@@ -800,12 +835,7 @@ theorem cart_read_write_read_id (lines : List (List String)) (m m2 : AMap)
     ∃ m3, readAscii .cart m2.lines = some m3 ∧
       ∀ cell, (get? m3.labels cell).filter (· != PLACEHOLDER) = get? (dataOf m.labels) cell := by
   have hlab : m.labels = readLabels .cart 0 0 lines := readAscii_labels .cart lines m hr
-  apply cart_write_read_id_partial (dataOf m.labels) m2 _ _ hw
-  · intro p hp
-    have hp' : p ∈ m.labels := (List.mem_filter.mp hp).1
-    rw [hlab] at hp'
-    obtain ⟨h1, h2, _⟩ := readLabels_cart_mem 0 0 lines p hp'
-    exact ⟨h1, h2⟩
+  apply cart_write_read_id (dataOf m.labels) m2 _ hw
   · intro p hp
     obtain ⟨hp', hne⟩ := List.mem_filter.mp hp
     rw [hlab] at hp'
@@ -1543,7 +1573,7 @@ private def exL : Labels := [((0, 0), "A"), ((1, 0), "F1"), ((0, 1), "C"), ((2, 
 
 example : ∀ p ∈ exL, 0 ≤ p.1.1 ∧ 0 ≤ p.1.2 := by decide
 example : IsData "A" ∧ IsData "F1" := by unfold IsData; decide
-/-- the writer does draw these contents (the premise of `cart_write_read_id_partial` is satisfiable) -/
+/-- the writer does draw these contents (the premise of `cart_write_read_id` is satisfiable) -/
 example : (gridContentsToAscii .cart exL).map (·.lines) = some [["C", "-", "B"], ["A", "F1"]] := by decide +kernel
 /-- two distinct text cells of a third-core map (lines counted from the bottom) -/
 example : cellOf .third 0 0 1 4 ≠ cellOf .third 0 0 0 5 := by decide
